@@ -15,7 +15,7 @@ RULES = {
     "R-EV": A.rule_EV, "R-EG": A.rule_EG, "R-SL": A.rule_SL,
     "R-FP": C.rule_FP, "R-CP": C.rule_CP, "R-MC": C.rule_MC, "R-CE": C.rule_CE,
     "R-OS": C.rule_OS, "R-RK": C.rule_RK,
-    "R-DC": K.rule_DC, "R-CC": K.rule_CC, "R-CL": K.rule_CL, "R-OC": K.rule_OC, "R-UW": K.rule_UW, "R-CF": K.rule_CF, "R-LB": K.rule_LB,
+    "R-DC": K.rule_DC, "R-CC": K.rule_CC, "R-CL": K.rule_CL, "R-OC": K.rule_OC, "R-UW": K.rule_UW, "R-CF": K.rule_CF, "R-TB": K.rule_TB, "R-VW": K.rule_VW, "R-LB": K.rule_LB,
     "R-MX": K.rule_MX, "R-TK": K.rule_TK,
     "R-MS": O.rule_MS, "R-FV": O.rule_FV, "R-AB": O.rule_AB, "R-MP": O.rule_MP,
     "R-KN": O.rule_KN, "R-PU": O.rule_PU, "R-VM": O.rule_VM, "R-DK": O.rule_DK, "R-PO": O.rule_PO, "R-NK": O.rule_NK,
@@ -58,16 +58,17 @@ PROPS = {
               "whether stored values equal uncached evaluation for concrete graphs; prefix relations between run-time key strings "
               "(a whole-section key partly supplied by a pre-set dictionary, finding F13); history effects",
               floors={"R-KC": 30, "R-OA": 80}, filters={"R-SH": ["evaluates nothing but its switch"], "R-OP": [":iterates"], "R-WI": [":keys:"]}),
-    "C02": _p(["R-FP", "R-PO", "R-OA", "R-DC", "R-EO", "R-CP", "R-MC", "R-CW", "R-SK", "R-IS", "R-AI", "R-OC", "R-TK", "R-RE"],
+    "C02": _p(["R-FP", "R-PO", "R-OA", "R-DC", "R-EO", "R-CP", "R-MC", "R-CW", "R-SK", "R-IS", "R-AI", "R-OC", "R-TK", "R-RE", "R-CC"],
               "Decides the structural conditions for effective memoization: the fingerprint depends on keys(options) only (extra or "
               "re-ordered top-level keys cannot split entries); WithOptions.keys removes keys fixed by the pre-set dictionary; "
               "Computation and Logged sit inside cached() so effects and logging happen only on a miss; the effect runs after the "
               "body with its value; the set handler stores and reads back; a miss of MemoryCache.get is decided by the key, never by the "
               "stored value (a stored None is served); no operation keeps an options-dependent result on a shared object."
               " The implementation dataset of an overload carries nothing of its parent (effects would run twice); no part of an evaluation runs on a thread of the library's making."
-              " Template.keys asks its parameters for keys(), not explain() (effect-only keys would split entries); leaving a handler context restores the runtime its entry saved (a cache.disabled() runtime that stays installed after a re-entrant use makes every later evaluation miss).",
+              " Template.keys asks its parameters for keys(), not explain() (effect-only keys would split entries); leaving a handler context restores the runtime its entry saved (a cache.disabled() runtime that stays installed after a re-entrant use makes every later evaluation miss)."
+              " A dataset rebuilt from the parts of another through the factory carries its cache (a copy without it is a second memo for the same body).",
               "the number of body executions for concrete DAGs, sharing inside one evaluation, behaviour of over-wide key sets",
-              filters={"R-TK": ["Template.keys"], "R-RE": ["Runtime.__exit__", "Runtime.__enter__"], "R-AI": ["starts no threads"], "R-PO": ["WithOptions"], "R-EO": ["Computation", "CallbackEffect", "ChainedEffect"], "R-OA": ["WithOptions", "Cached", "Dataset"],
+              filters={"R-CC": ["dataset(...) rebuilt"], "R-TK": ["Template.keys"], "R-RE": ["Runtime.__exit__", "Runtime.__enter__"], "R-AI": ["starts no threads"], "R-PO": ["WithOptions"], "R-EO": ["Computation", "CallbackEffect", "ChainedEffect"], "R-OA": ["WithOptions", "Cached", "Dataset"],
                        "R-MC": ["MemoryCache"], "R-CW": ["Dataset.overload", "carries nothing"]}),
     "C03": _p(["R-PO", "R-FP", "R-KC", "R-DK", "R-RK", "R-MF", "R-WI", "R-OP", "R-SO", "R-OA", "R-AI", "R-HK", "R-HD", "R-KB", "R-KU", "R-RE"],
               "Decides: every component of every keys() result is a child's keys, an empty set, a literal key guarded by "
@@ -110,14 +111,15 @@ PROPS = {
               " Construction code calls no user-supplied object with empty arguments (a dataset class is a type and an expression); Map's per-combination dictionaries share no nested section; the library starts no threads.",
               "which bodies actually ran for a given dictionary",
               filters={"R-AI": ["starts no threads"], "R-PU": ["Map", "shallow"], "R-SO": ["Coalesce", "CaseWhen"]}),
-    "C07": _p(["R-RG", "R-LB", "R-KC", "R-DC", "R-CC", "R-ID", "R-CW", "R-SO", "R-CD", "R-LS", "R-UW", "R-FP", "R-DK", "R-CF"],
+    "C07": _p(["R-RG", "R-LB", "R-KC", "R-DC", "R-CC", "R-ID", "R-CW", "R-SO", "R-CD", "R-LS", "R-UW", "R-FP", "R-DK", "R-CF", "R-TB", "R-VW"],
               "Decides: an implementation registers nothing before all rejections are decided; the overload switch is rebuilt from "
               "the live table on every use; the dispatch is keyed on every successful-dispatch path; the callback is applied outside "
               "the switch; derivatives share overloads and cache by reference; every interface member receives the interface's "
               "dispatch; the overload table is replaced, never mutated; the cache sits inside both option wrappers, so a value stored under one "
               "(default-supplied) dispatch value is keyed apart from another's."
               " Wrapping never copies the wrapped object's __dict__ (a dataset wrapping a dataset would take over its overload table); tuple aliases are registered whole."
-              " The fingerprint looks every reported key up with the dotted accessor (a nested dispatch option 'IMPL.KIND' read with options.get would fingerprint as None for every value: one stored value for all implementations); request records keep each constructor argument in the field of its name (a handler of the type request reads request.options when the dispatch Option is typed).",
+              " The fingerprint looks every reported key up with the dotted accessor (a nested dispatch option 'IMPL.KIND' read with options.get would fingerprint as None for every value: one stored value for all implementations); request records keep each constructor argument in the field of its name (a handler of the type request reads request.options when the dispatch Option is typed)."
+              " Expressions are always truthy (a dispatch that is an empty switch must survive `dispatch or self.dispatch`); a member that is itself an expression is never frozen into a Value.",
               "which implementation a given dictionary selects; cross-member consistency of values",
               filters={"R-FP": ["every-reported-key-serialised", "options-only-via-keys-and-lookup"], "R-DK": ["fingerprint"], "R-CF": ["Request"], "R-KC": ["Switch", "Overloaded", "_DependsOn", "Dataset"], "R-CC": ["Dataset(", "Overloaded("], "R-SO": ["Switch"],
                        "R-DC": ["callback", "delegates", "default-options > pre-set options"], "R-CD": ["Switch"], "R-LS": ["Overloaded", "_LOCKS"]}),
@@ -220,7 +222,7 @@ PROPS = {
               " A backend that follows the contract is addressed by the fingerprint: every reported key is serialised by dotted lookup, and Option.keys follows templated values into the values (not the keys) of a mapping — otherwise a well-behaved backend hands back a value stored for other options.",
               "backends that violate the Cache contract in other ways (other exception types)",
               filters={"R-DK": ["fingerprint"], "R-RK": ["every recognised kind"], "R-MC": ["MemoryCache.get:a miss"], "R-SO": ["Coalesce"]}),
-    "C18": _p(["R-WR", "R-RQ", "R-HD", "R-MP", "R-L1", "R-HI", "R-MF", "R-EO", "R-ON", "R-EV", "R-CF"],
+    "C18": _p(["R-WR", "R-RQ", "R-HD", "R-MP", "R-L1", "R-HI", "R-MF", "R-EO", "R-ON", "R-EV", "R-CF", "R-RG"],
               "Decides nearly the whole mechanism: the four ABC hooks replace every op by a request-issuing wrapper and the default "
               "handlers call the saved implementation; nothing else calls the saved implementations; every concrete class defines "
               "plain methods; cache/log/type-check sites go through XRequest(...).run(); backends are called only by handlers; every "
@@ -229,16 +231,18 @@ PROPS = {
               "composed function (no request is issued later, under another runtime); operations are issued on the objects the expression "
               "was built from, not on copies derived on the way."
               " No library function enters a runtime of its own (shadowing the user's handlers); expressions are never deep-copied."
-              " validate/keys/explain ask their parts to validate/key/explain (an effect whose validate evaluates its callback issues EvaluateRequests where ValidateRequests are due); request records keep each constructor argument in the field of its name.",
+              " validate/keys/explain ask their parts to validate/key/explain (an effect whose validate evaluates its callback issues EvaluateRequests where ValidateRequests are due); request records keep each constructor argument in the field of its name."
+              " What an implementation registers on the interface member is its own member object (the dataset the user wrote, so that its requests are issued when the interface dispatches to it).",
               "third-party subclasses; that a pass-through handler changes no value",
-              filters={"R-MP": ["type request"], "R-HI": ["handle", "disabled", "enters a runtime", "reads the current runtime"], "R-MF": ["set to its evaluation"], "R-EO": ["__call__", "combinator API", "before the function is returned"]}),
-    "C19": _p(["R-DK", "R-MF", "R-KC", "R-VA", "R-XA", "R-WI", "R-EO", "R-KB", "R-LK", "R-TI", "R-MX", "R-RG"],
+              filters={"R-RG": ["registers the implementation member itself"], "R-MP": ["type request"], "R-HI": ["handle", "disabled", "enters a runtime", "reads the current runtime"], "R-MF": ["set to its evaluation"], "R-EO": ["__call__", "combinator API", "before the function is returned"]}),
+    "C19": _p(["R-DK", "R-MF", "R-KC", "R-VA", "R-XA", "R-WI", "R-EO", "R-KB", "R-LK", "R-TI", "R-MX", "R-RG", "R-VW"],
               "Decides: relevant options are read with dotted accessors; validate/keys/explain/instantiation enumerate members with "
               "the same source and predicate; __eq__ and __repr__ read the recorded relevant options; members are children for key "
               "coverage / validate / explain agreement; no per-class member memo that derived classes inherit; plain members are "
               "handed out as copies."
               " Recorded keys are compared at the dot; lift() lifts keyword-only defaults; inherit() always installs the parent's runtime."
-              " A member derived with with_options / with_default_options carries the stored forced dictionary on (members are evaluations under the instance's options); every member of an implemented interface is registered under every alias (the aliases are a collection that can be walked once per member).",
+              " A member derived with with_options / with_default_options carries the stored forced dictionary on (members are evaluations under the instance's options); every member of an implemented interface is registered under every alias (the aliases are a collection that can be walked once per member)."
+              " A member that is itself an expression (a dataset class is a type and an expression) is never wrapped as a constant.",
               "instance attribute values",
               filters={"R-MX": ["with_options", "with_default_options"], "R-RG": ["walked once per member", "every member registered"], "R-KC": ["_DatasetClassMeta"], "R-VA": ["_DatasetClassMeta"], "R-XA": ["_DatasetClassMeta"], "R-DK": ["datasetclass"],
                        "R-WI": ["_DatasetClassMeta"], "R-EO": ["Value.evaluate"]}),
